@@ -614,3 +614,65 @@ PROPS["C18"] = _ics20_prop("C18", 2, C18_CLAUSES, "allow list, governance addres
     "governance only from the pre-allow-list layout and keeps the default gas limit unless asked; a cw20 transfer is accepted "
     "only if the token is allowed or a default limit is set; every payout/refund carries the token's limit or else the default "
     "(none for native). Tie to the Rust: S_C18 on every step incl. gas_limit of the logged sub-messages (measured).")
+
+
+# ------------------------------------------------------------------------------------------
+# C20: one case = one (listing, state size, limit): the pages of a complete walk on the real contract
+C20_CLAUSES = {1: "a page exceeds the requested limit (or the default of 10)", 2: "a page exceeds the maximum of 30",
+               3: "walking the pages does not return every current item exactly once in key order",
+               4: "the walk did not end with an empty page"}
+
+
+def run_c20(prop, tier, seed, replay, coverage):
+    failing, divergent, errors = [], [], []
+    d = fresh_dir("C20_replay" if replay else "C20_gen")
+    if replay:
+        harness(["c20", "replay", "--file", replay, "--out", d])
+    else:
+        harness(["c20", "gen", "--out", d, "--shard", "120" if tier == "quick" else "500"] + (["--thorough"] if tier != "quick" else []))
+    results, errs, cases, stats = eval_dir(d, "c20")
+    errors.extend(errs)
+    for idx, code in results.get(0, []):
+        case = cases[idx] if idx < len(cases) else "{}"
+        if code >= 100:
+            failing.append({"why": "%d (%s)" % (code - 100, C20_CLAUSES.get(code - 100, "?")), "case": case, "src": "gen"})
+        else:
+            divergent.append({"why": "pages of the implementation differ from the model's page function", "case": case, "src": "gen"})
+    classes = stats.get("classes", {})
+    coverage.update({
+        "evaluations": len(cases),
+        "distinct_nontrivial": len(classes),
+        "rule": "case = (listing, number of items in the state, limit): the state is built on the real contract, the listing is walked "
+                "from the start with last-key cursors until an empty page; 16 listings x state sizes (0,1,9,10,11,29,30,31,35,64; thorough: "
+                "0..42,50,61,64,70) x limits (absent,0,1,2,7,10,29,30,31,100,u32::MAX); subkey allowances include a run of > 30 adjacent "
+                "expired entries; Coq evaluates S_C20 on the pages and compares them with the model's walk; distinct = (listing, size "
+                "class, limit class)",
+        "samples": [json.loads(c) for c in cases[:2]],
+        "traces_validated_against_impl": len(cases),
+        "disagreements_checked": len(divergent),
+        "distribution": classes,
+    })
+    return {"failing": failing, "divergent": divergent, "errors": errors}
+
+
+PROPS["C20"] = {
+    "id": "C20", "props_file": "Props/C20.v",
+    "coq_targets": ["Props/C20.v", "Paging.v"], "exec_targets": ["Paging.v"],
+    "run": run_c20,
+    "assumptions": [
+        "theorems are about the shared list-query model (Paging.v): range from an exclusive cursor in key order, optional filter, "
+        "take(min(limit or DEFAULT, MAX)); that every one of the 16 listings of the Rust code is an instance is measured by the "
+        "differential walk, not proved",
+        "DEFAULT_LIMIT / MAX_LIMIT of the seven source files are re-read on every run (tools/extract_params.py -> Params.v); "
+        "c20_constants fails to compile when one of them is not 10 / 30",
+        "keys are abstracted to their rank in storage order (address byte order, proposal ids)",
+    ],
+    "level_text": "Axiom-free Coq theorems over the shared list-query model, for EVERY strictly ordered key set of any size, every "
+                  "filter, every cursor reachable by a walk and every limit: no page exceeds 30 or the requested limit, the default "
+                  "is 10, limit 0 yields an empty page, and walking with last-key cursors returns every current item exactly once in "
+                  "key order (descending for the reverse listings) and ends with an empty page (induction on the remaining suffix); "
+                  "the constants of all seven source files are proof obligations (= 10 / 30). Tie to the Rust: all 16 listings are "
+                  "walked on the real contracts over states with 0..64 items and 11 limits; Coq evaluates S_C20 on the returned "
+                  "pages and compares them with the model's walk (measured).",
+    "design_ref": "DESIGN.md section 6 C20",
+}
